@@ -64,6 +64,9 @@ func watchdog(res *lp.Result, prop string) {
 			runtime.ReadMemStats(&ms)
 			if ms.HeapAlloc > 6<<30 {
 				in, _ := currentInput.Load().(string)
+				if in == "" {
+					continue // not a decoding mode: the harness' own bookkeeping, not a decoder, holds the memory
+				}
 				res.Add(lp.Finding{Kind: "violation", What: "decoder allocates more than 6 GiB for a small input", Input: in})
 				if *outPath != "" {
 					res.Write(*outPath)
